@@ -10,7 +10,12 @@ import torch
 from core import Ctx, Violation, err_name, line, ok_tensor, tensor_groups
 
 PROP = "C10"
-EXTRA_LEAN_MODULES = ["DirectVerif.Lemmas.TensorLiftC10"]  # n-D corollaries (lifting laws of alongAxis)
+EXTRA_LEAN_MODULES = ["DirectVerif.Lemmas.TensorLiftC10",   # n-D corollaries (lifting laws of alongAxis)
+                      "DirectVerif.Lemmas.C10Modules",     # key plumbing, call histories, crop-shape forms of the k-space modules
+                      "DirectVerif.Lemmas.C10Kspace",      # k-space crop/pad == image crop/pad over the C01 plans (abstract backend, 1-D, 2 axes)
+                      "DirectVerif.Lemmas.C10KspaceDft"]   # … instantiated with the concrete DFT of C01 (Mathlib ZMod.dft)
+PENDING_FINDINGS: list[str] = ["cropkspace-crop-form-5d", "random-crop-sigma-singleton-list", "bbox-dtype-bool",
+                               "crop-to-largest-centring-ceil"]
 MANIFEST = {
     "text": "Lean 4 theorems over all sizes/parities: centre crop = central window at offset floor((n-s)/2); pad places data at "
             "floor((N-n)/2); pad followed by centre crop is the identity; F.pad pair order for any number of axes; bbox window "
@@ -199,6 +204,9 @@ def correspondence(ctx: Ctx):
                 np.random.set_state(st)
         yield {"line": line("rcrop", sh, d, crop, [offset], lower), "impl": impl,
                "nontrivial": any(l > 0 for l in limits), "bucket": f"random_crop/{sampler}"}
+    # ---- the k-space modules (PadKspace / CropKspace) with exact operators: plan + key plumbing + crop-shape forms
+    from props.c10_modules import correspondence_modules
+    yield from correspondence_modules(ctx)
 
 
 # --------------------------------------------------------------------------------------------------
@@ -339,6 +347,12 @@ def oracle(ctx: Ctx, deep: bool = False):
             yield Violation("padkspace-image-equivalence" + ("-odd" if (ph - h) % 2 or (pw - w) % 2 else "-even"),
                             "PadKspace != fft(zero-pad centred image)",
                             {"op": "PadKspace", "shape": [c, h, w, 2], "pad": [ph, pw], "seed": ctx.seed})
+    # (5) the k-space modules as persistent instances: histories, every constructor option, key plumbing, aliasing
+    from props.c10_modules import oracle_modules
+    yield from oracle_modules(ctx, deep)
+    # (6) the primitives' remaining options / argument forms / dtypes / layouts
+    from props.c10_prims import oracle_prims
+    yield from oracle_prims(ctx, deep)
 
 
 def replay(rep: dict) -> bool:
@@ -347,6 +361,12 @@ def replay(rep: dict) -> bool:
     from direct.data.bbox import crop_to_bbox
 
     op = rep.get("op")
+    if op == "module_history":
+        from props.c10_modules import replay_modules
+        return replay_modules(rep)
+    if op == "primitive":
+        from props.c10_prims import replay_prims
+        return replay_prims(rep)
     if op == "pad_then_center_crop":
         x = _arange(rep["shape"])
         back = T.center_crop(T.pad_tensor(x, tuple(rep["target"])), tuple(rep["shape"]))
